@@ -19,11 +19,17 @@ type refOut struct {
 	member bool
 }
 
-func rVal(v Val) refOut       { return refOut{alts: []Val{v}} }
-func rErr() refOut            { return refOut{errOK: true} }
-func rUnspec() refOut         { return refOut{unspec: true} }
-func rValOrErr(v Val) refOut  { return refOut{alts: []Val{v}, errOK: true} }
-func strArr(ss []string) Val  { a := Val{K: VArr}; for _, s := range ss { a.A = append(a.A, vStr(s)) }; return a }
+func rVal(v Val) refOut      { return refOut{alts: []Val{v}} }
+func rErr() refOut           { return refOut{errOK: true} }
+func rUnspec() refOut        { return refOut{unspec: true} }
+func rValOrErr(v Val) refOut { return refOut{alts: []Val{v}, errOK: true} }
+func strArr(ss []string) Val {
+	a := Val{K: VArr}
+	for _, s := range ss {
+		a.A = append(a.A, vStr(s))
+	}
+	return a
+}
 func isKind(v Val, k string) bool { return v.K == k }
 
 func refBuiltin(name string, recv Val, args []Val) refOut {
